@@ -803,6 +803,26 @@ func runK7scen(r *rng, n int) {
 			s.close()
 			emit("k7scen name=rename-dir-while-child-closing => renamed=%d uac=%d", ren, uac)
 		}
+		// the entry itself is renamed while the last reference to it is being dropped (its Close is held
+		// inside the backend): the dying reference is still registered under its name, and must be
+		// skipped, not revived – no Renamed on the closing File, no second Close
+		{
+			s := newK7(r, 2)
+			s.walk(0, 0, 1, p9.ModeRegular|0644, "a")
+			g := s.g.arm("Close", 0)
+			s.send(0, 120, map[string]interface{}{"fid": uint64(1)})
+			entered := g.waitEntered(2 * time.Second)
+			rt := s.call(1, 74, map[string]interface{}{"OldDirectory": uint64(0), "OldName": "a", "NewDirectory": uint64(0), "NewName": "b"})
+			close(g.release)
+			s.recvReply(0, 3*time.Second)
+			ren := 0
+			if rt == 75 || !entered {
+				ren = 1
+			}
+			s.close()
+			life := s.be.lifecycle()
+			emit("k7scen name=rename-of-an-entry-whose-last-fid-is-closing => renamed=%d %s", ren, life)
+		}
 		// a clunk racing with an in-flight operation on the same fid: the File is closed only when
 		// the operation has returned, once, and not used afterwards
 		{
